@@ -15,6 +15,12 @@ def run(ctx):
     fam = [bs[n] for n in ("rmw3", "dd3", "stale_fatal2", "fatal_in_order2", "t_nonce_gap_dup", "t_funds_made_good", "f_mixed_price")]
     fam += scen.c12_from_cases(cases["create"])[:4] + scen.c13_from_cases(cases["reserve"])[5::9]
     fam += scen.c08_family(("SHANGHAI",))[:2] + scen.c09_family()[2:3]
+    # blocks whose outcome is an error: the failing index and the prefix must not depend on the configuration either
+    for n, key in (("invalid_mid_fault4", "z"), ("invalid_mid_fault4", "x"), ("rmw3", "x"), ("stale_fatal2", "e1"), ("invalid_then_valid3", "y")):
+        s = dict(bs[n])
+        s["name"] = f"{n}@{key}:persistent"
+        s["fault"] = {"key": key, "mode": "persistent"}
+        fam.append(s)
     out = ctx.path("matrix.json")
     args = {"scenarios": fam, "seed": ctx.seed, "repeat": 2 if quick else 6, "out": out}
     r = ctx.vh("matrix", args, timeout=3000)
@@ -27,6 +33,19 @@ def run(ctx):
     for workers in (1, 2, 3):
         rr, o, a = se.controlled(ctx, ["rmw3", "dd3", "t_nonce_gap_dup"], 25 if quick else 1500, workers=workers, tag=f"w{workers}")
         se.report(ctx, rr, a, "C06", also=("C01", "C03"))
+    # a failure seen only by a stale attempt must not decide the block under any timing: the specification's
+    # counterexample for the guard (attempt started before its predecessor committed) replayed on the code
+    w = se.witness(ctx, "GHeadAtStart", "stale_fatal2_nocheck", regenerate=False)
+    if w["found"]:
+        se.replay_witness(ctx, w, "C06", also=("C01", "C04"), extra_runs=6 if quick else 40)
+    for b in ("stale_fatal2_nocheck", "stale_fatal2", "invalid_stale2"):
+        g = se.goal(ctx, "CommitDuringFailedAttempt", b)
+        ctx.guards[f"goal CommitDuringFailedAttempt on {b}"] = f"reached at depth {g['depth']}" if g["found"] else "not reachable"
+        if g["found"]:
+            se.replay_witness(ctx, g, "C06", also=("C01", "C04"), extra_runs=4 if quick else 30)
+    rr, o, a = se.controlled(ctx, ["stale_fatal2_nocheck", "stale_fatal2", "invalid_stale2", "invalid_mid_fault4"], 100 if quick else 4000, workers=2, tag="err_w2")
+    se.report(ctx, rr, a, "C06", also=("C01", "C03", "C04"))
+    se.validate(ctx, rr, o, "trace_err_w2")
     ctx.rule = ("one case = (block, configuration): workers 1/2/3/8, min_parallel_txs 0 / n / n+1, force_sequential, entry point execute / "
                 "fallback_sequential, repeated runs; the observable (success or failing index, every outcome, the bundle) must be identical across all "
                 "configurations of a block; blocks include policy-enabled ones (rule cases of rules/Delegated.tla) for which stock revm is no oracle")
